@@ -172,8 +172,15 @@ def r_all(ctx):
     # ---- R3 thinning predicate
     iv = iv_main
     fsd = single_defs(f.node)        # loop-carried names (re-bound or augmented elsewhere) are not definitions to read through
-    lenv_main = {n.targets[0].id: n.value for n in main.body if isinstance(n, ast.Assign) and len(n.targets) == 1 and isinstance(n.targets[0], ast.Name)
-                 and n.targets[0].id in fsd}
+    in_main = {}
+    for n in walk_own(main):
+        if isinstance(n, (ast.Assign, ast.AugAssign, ast.For)):
+            for t_ in (n.targets if isinstance(n, ast.Assign) else [n.target]):
+                for x in ast.walk(t_):
+                    if isinstance(x, ast.Name):
+                        in_main[x.id] = in_main.get(x.id, 0) + 1
+    lenv_main = {n.targets[0].id: n.value for n in walk_own(main) if isinstance(n, ast.Assign) and len(n.targets) == 1 and isinstance(n.targets[0], ast.Name)
+                 and (n.targets[0].id in fsd or in_main.get(n.targets[0].id) == 1) and n.targets[0].id not in names_in(n.value)}
     adds = [c for c in calls(main, tail="add_theta")]
     ctx.need(len(adds) == 1, "sampling.sample: results.add_theta(...) not found in the sampling loop")
     add = adds[0]
